@@ -464,6 +464,7 @@ func evalC03(c *Ctx, cs *Case) {
 		c03FS(c, cs, f, root, doc, fkey, r, viol)
 		c03Hostile(c, cs, root, fkey, r, viol)
 		c03BadFile(c, cs, root, doc, fkey, viol)
+		c03StrayPairs(c, root, gen.Spell(model.Forest{root}, gen.Canonical), fkey, "valid-names", int(cs.Seed%4), viol)
 	}
 	// invalid roots
 	c03Invalid(c, cs, root, fkey, viol)
@@ -698,6 +699,81 @@ func c03Hostile(c *Ctx, cs *Case, root *model.Node, fkey string, r *gen.Rand, vi
 			case !massive && len(mon.Diff(snaps[0], snaps[1])) != 0:
 				det["diff"] = mon.Diff(snaps[1], snaps[0])
 				viol(entry, "fromroot.differs-from-markdown", op+"/invalid-name/filesystem", det)
+			}
+		}
+	}
+	c03StrayPairs(c, h[0], hdoc, fkey+"\x00"+bad+strconv.Itoa(pos), "invalid-name", pos, viol)
+}
+
+// c03StrayPairs: output and walk with options that belong to another operation (dry run, file
+// extensions, an encode option for a walk), through both families, simple and massive. Whatever
+// such an option does - dry run validates the names and turns the output into the report - it
+// does the same for a tree built with Add as for its Markdown spelling.
+func c03StrayPairs(c *Ctx, tree *model.Node, doc, key, tag string, sel int, viol func(entry, clause, sig string, det map[string]any)) {
+	ops := []string{"output+dryrun", "output+dryrun+json", "walk+dryrun", "walk+ext+json", "output+dryrun+ext"}
+	for oi, op := range ops {
+		if (oi+sel)%2 == 1 && tag == "valid-names" {
+			continue // half of them per valid tree, all of them for the tree with the invalid name
+		}
+		for _, massive := range []bool{false, true} {
+			mode := map[bool]string{true: "massive", false: "simple"}[massive]
+			var errs [2]error
+			var outs [2]string
+			var pans [2]any
+			for fam := 0; fam < 2; fam++ {
+				var opts []gtree.Option
+				if strings.Contains(op, "dryrun") {
+					opts = append(opts, gtree.WithDryRun())
+				}
+				if strings.Contains(op, "json") {
+					opts = append(opts, gtree.WithEncodeJSON())
+				}
+				if strings.Contains(op, "ext") {
+					opts = append(opts, gtree.WithFileExtensions([]string{".go", ".md", "b"}))
+				}
+				if massive {
+					opts = append(opts, gtree.WithMassive(context.Background()))
+				}
+				w := mon.NewRecWriter()
+				rec := NewRowRec()
+				base := runtime.NumGoroutine()
+				var o Outcome
+				col := captureColorOutput(func() {
+					o = Guard(func() error {
+						switch {
+						case strings.HasPrefix(op, "output") && fam == 0:
+							return gtree.OutputFromRoot(w, BuildRoot(tree), opts...)
+						case strings.HasPrefix(op, "output"):
+							return gtree.OutputFromMarkdown(w, MDReader(doc), opts...)
+						case fam == 0:
+							return gtree.WalkFromRoot(BuildRoot(tree), rec.Callback, opts...)
+						}
+						return gtree.WalkFromMarkdown(MDReader(doc), rec.Callback, opts...)
+					})
+				})
+				if massive {
+					c03Quiet.Quiesce(base)
+				}
+				rec.mu.Lock()
+				rows := ""
+				for _, rw := range rec.Rows {
+					rows += rw.Row + "\n"
+				}
+				rec.mu.Unlock()
+				errs[fam], pans[fam] = o.Err, o.Panic
+				outs[fam] = string(w.Bytes()) + "\x00" + string(col) + "\x00" + rows
+			}
+			c.Eval(gen.HashString(key+"\x00stray"+op+mode+tag), true)
+			c.Count("stray_option_pairs."+tag, 1)
+			entry := map[bool]string{true: "OutputFromRoot", false: "WalkFromRoot"}[strings.HasPrefix(op, "output")] + "[" + op + "," + mode + "]"
+			det := map[string]any{"tree": doc, "root_err": errStr(errs[0]), "markdown_err": errStr(errs[1]), "root": trunc(outs[0], 400), "markdown": trunc(outs[1], 400)}
+			switch {
+			case pans[0] != nil || pans[1] != nil:
+				viol(entry, "panic", "stray-option", det)
+			case (errs[0] == nil) != (errs[1] == nil):
+				viol(entry, "fromroot.differs-from-markdown", "stray-option/"+tag+"/verdict", det)
+			case errs[0] == nil && outs[0] != outs[1]:
+				viol(entry, "fromroot.differs-from-markdown", "stray-option/"+tag+"/result", det)
 			}
 		}
 	}
